@@ -41,6 +41,8 @@ pub struct TreeCtx<'a> {
     /// if set, only this path (string of 'f'/'b') is followed
     pub only: Option<Vec<u8>>,
     pub max_depth: usize,
+    /// true: max_depth is a stated bound of the family (the iterator has astronomically many items), not a safety cap
+    pub depth_is_bound: bool,
     pub nodes: u64,
     pub leaves: u64,
 }
@@ -96,7 +98,7 @@ pub fn explore<K, I, O, E>(
         }
     }
     if path.len() >= c.max_depth {
-        if c.rep.caps_hit.len() < 5 {
+        if !c.depth_is_bound && c.rep.caps_hit.len() < 5 {
             let d = (c.describe)().1;
             c.rep.caps_hit.push(format!("{}: depth cap {} reached", d, c.max_depth));
         }
